@@ -91,8 +91,11 @@ def qkwargs(q, for_subset=False):
     kw = {}
     for k_src, k_dst in [("biotype", "biotype"), ("seqid", "seqid"), ("name", "name"), ("strand", "strand"),
                          ("attrs", "attributes"), ("start", "start"), ("stop", "stop")]:
-        if q.get(k_src) is not None:
-            kw[k_dst] = q[k_src]
+        v = q.get(k_src)
+        if isinstance(v, dict) and "coll" in v:
+            v = {"list": list, "tuple": tuple, "set": set}[v["coll"]](v["vals"])
+        if v is not None:
+            kw[k_dst] = v
     if not for_subset and q.get("on_aln") is not None:
         kw["on_alignment"] = q["on_aln"]
     kw["allow_partial"] = bool(q["partial"])
@@ -289,6 +292,17 @@ def run_case(case, tmp):
         if kind == "basic" and "on_alignment" in kw:
             ckw["on_alignment"] = kw["on_alignment"]
         cnt = int(db.num_matches(**ckw))
+        if case.get("attrmeta"):
+            # the same query through subset() and through num_matches(attributes=...)
+            STAGE[0] = "op:subset"
+            skw = {k: v for k, v in kw.items() if k != "on_alignment"}
+            sub = sorted(d["name"] for d in db.subset(**skw).get_records_matching())
+            STAGE[0] = "num_matches"
+            akw = dict(ckw)
+            if "attributes" in kw:
+                akw["attributes"] = kw["attributes"]
+            out.append([feats, recs, cnt, sub, int(db.num_matches(**akw))])
+            continue
         out.append([feats, recs, cnt])
     if "cds" in case:
         STAGE[0] = "count_distinct"
